@@ -37,8 +37,54 @@ TRUST = ['CBMC 6.11.0 (C front end, --dfcc, SAT back end)', 'vlib/cxx2c.py idiom
          'ASSUMED: the has-query of the back end answers whether a child with that name exists (HDF5 link table, H5Lexists)']
 ASSUME = ['KERNEL ONLY: of the rejection classes in the statement only "duplicate or invalid name, empty type, unusable positions array, empty value list" at the create functions of File, Block, Source and Section are decided; '
           'plus PropertyHDF5::values (a value of another type anywhere in the list is rejected before the dataset is resized or written). '
-          'What the back-end constructors do between their libhdf5 calls (half-built multi-tag, DataFrame re-identification, replace-link setters) is NOT covered',
-          'Block::createDataFrame (header; std::set of column names) is not under contract']
+          'Of what the back-end constructors and setters do between their libhdf5 calls, decided are: BlockHDF5::createMultiTag (no half-built multi-tag), MultiTagHDF5::positions / extents, '
+          'EntityWithMetadataHDF5::metadata(id), SectionHDF5::link(id) (a rejected assignment keeps the old link); other constructors / setters (FeatureHDF5::data, DataFrameHDF5, ...) are NOT covered']
+def frame_rules(ctx, toks):
+    """std::set<std::string> names; -> set_nstr names = {0};   std::pair<std::set<std::string>::iterator, bool> inserted = names.insert(X); -> bool inserted_second = set_nstr_insert(&names, X);
+       inserted.second -> inserted_second;   Variant::supports_type -> Variant_supports_type;   std::string msg = "literal"; -> const char *msg = "literal";"""
+    from cxx2c import Tok, P, seq_at, match_close, tokenize, fire
+    out = []; i = 0
+    def skipq(k):
+        while k and out[k - 1].t in ('std', '::'): k -= 1
+        return k
+    while i < len(toks):
+        t = toks[i]
+        if t.t == 'set' and toks[i + 1].t == '<' and toks[i + 4].k == 'id' and toks[i + 5].t == ';' if i + 5 < len(toks) else False:
+            pass
+        if t.t == 'set' and toks[i + 1].t == '<':
+            j = i + 2
+            while toks[j].t != '>': j += 1
+            if toks[j + 1].k == 'id' and toks[j + 2].t == ';':
+                k = skipq(len(out)); ws = out[k].ws if k < len(out) else t.ws; del out[k:]
+                out.extend(tokenize('%sset_nstr %s = {0}' % (ws, toks[j + 1].t))); i = j + 2; fire(ctx, 'set-decl'); continue
+        if t.t == 'pair' and toks[i + 1].t == '<':
+            j = i + 1; d = 0
+            while True:
+                if toks[j].t == '<': d += 1
+                elif toks[j].t == '>': d -= 1
+                elif toks[j].t == '>>': d -= 2
+                j += 1
+                if d <= 0: break
+            if toks[j].k == 'id' and toks[j + 1].t == '=' and toks[j + 3].t == '.' and toks[j + 4].t == 'insert':
+                e = match_close(toks, j + 5)
+                k = skipq(len(out)); ws = out[k].ws if k < len(out) else t.ws; del out[k:]
+                out.extend(tokenize('%sbool %s_second = set_nstr_insert(&%s,' % (ws, toks[j].t, toks[j + 2].t))); out.extend(toks[j + 6:e]); out.append(P(')', '')); i = e + 1; fire(ctx, 'set-insert'); continue
+        if t.k == 'id' and seq_at(toks, i + 1, ['.', 'second']) and t.t == 'inserted':
+            out.append(Tok('id', 'inserted_second', t.ws)); i += 3; continue
+        if seq_at(toks, i, ['Variant', '::', 'supports_type']):
+            out.append(Tok('id', 'Variant_supports_type', t.ws)); i += 3; fire(ctx, 'static-method'); continue
+        if t.t in ('string', 'nstring') and toks[i + 1].k == 'id' and toks[i + 2].t == '=' and toks[i + 3].k == 'str' and toks[i + 4].t == ';':
+            k = skipq(len(out)); ws = out[k].ws if k < len(out) else t.ws; del out[k:]
+            out.extend(tokenize('%sconst char *%s = %s' % (ws, toks[i + 1].t, toks[i + 3].t))); i += 4; fire(ctx, 'string-literal-local'); continue
+        out.append(t); i += 1
+    return out
+UNITS['Block_createDataFrame'] = m('include/nix/Block.hpp', 'Block', 'include/nix/Block.hpp', r'DataFrame\s+createDataFrame\s*\((?=\s*const\s+std::string\s*&\s*name)', classes=CL + ['Column', 'set_nstr', 'DataFrame'], pre_rules=[frame_rules], bounded_twin=True,
+    loops={0: '__CPROVER_assigns(_i_c, nix_exc, gh_col_problem)\n__CPROVER_loop_invariant(_i_c <= cols->n && nix_exc == EXC_NONE && gh_col_problem == 0)\n__CPROVER_decreases(cols->n - _i_c)'})
+JOBS.append(job('Block_createDataFrame', ['checkEntityNameAndType', 'checkEntityName', 'checkEntityInput'], extra_c=EXTRA + 'int gh_col_problem;\n', loop_contracts=True,
+                expect_kinds=['postcondition', 'precondition', 'loop_invariant_base', 'loop_invariant_step']))
+JOBS.append(job('Block_createDataFrame', ['checkEntityNameAndType', 'checkEntityName', 'checkEntityInput'], name='Block_createDataFrame[bounded]', extra_c=EXTRA + 'int gh_col_problem;\n', loop_contracts=False,
+                defines=['NIX_NO_LOOP_CONTRACTS', 'DF_BOUNDED=3'], cbmc_flags=['--unwind', '5', '--unwinding-assertions'], expect_kinds=['postcondition', 'precondition', 'unwind'],
+                bounded='at most 3 columns, loop unwound completely (twin without loop contract)'))
 import props.c14 as c14        # the value setter every Property assignment ends in (shared with C14)
 GATE_UNITS = dict(UNITS); GATE_JOBS = list(JOBS)
 UNITS = dict(UNITS); UNITS.update(c14.PROP_UNITS); JOBS = JOBS + c14.PROP_JOBS
